@@ -11,7 +11,7 @@ it is UNDECIDED.  Nothing is executed.
 """
 import itertools
 
-from .cyfront import tname, children, walk
+from .cyfront import tname, tstr, children, walk
 from .fm import feasible, entails, project, norm, key as ckey, model, cstr
 
 INT_TYPES = ("int", "long", "Py_ssize_t", "short", "unsigned int", "unsigned long", "size_t", "long long", "const int", "const long")
@@ -178,7 +178,7 @@ class Analyzer:
             while tname(a) in ("CoerceToPyTypeNode", "CoerceToTempNode", "CloneNode", "NoneCheckNode"):
                 a = a.arg
             if tname(a) == "NameNode":
-                if str(a.type).endswith("[:]"):
+                if tstr(a.type).endswith("[:]"):
                     return Lin.var("len_" + a.name)
                 f = self.pyfacts.get(a.name)
                 if f is not None and f.get("len") is not None:
@@ -652,7 +652,7 @@ class Analyzer:
         if lk != "NameNode":
             # e.g. result[:left_len] = left_array : ordinary (checked) Python indexing
             return states
-        t = str(lhs.type)
+        t = tstr(lhs.type)
         if self.is_counter_type(lhs.type):
             self._last_read = None
             cases = self.cond_expr_cases(n.rhs)
@@ -1025,7 +1025,7 @@ class Analyzer:
     def _run(self):
         init = []
         for arg in self.f.node.args:
-            if str(arg.type).endswith("[:]"):
+            if tstr(arg.type).endswith("[:]"):
                 init.append(Lin.const(0).le(Lin.var("len_" + arg.name)))
         st0 = St.of(list(init))
         self.exec(self.f.node.body, [st0])
